@@ -1,6 +1,7 @@
 package main
 
 import (
+	"sync/atomic"
 	"bytes"
 	"context"
 	"fmt"
@@ -174,6 +175,23 @@ func solveOne(c *Ctx, o *Obligation, dir string, timeoutMs int, seed int) *Verdi
 		v.Millis = time.Since(start).Milliseconds()
 		return v
 	}
+	// Budget heuristic: when every solver found the quantifier-free instantiation query satisfiable,
+	// the full query rarely turns out unsat; it is still tried (only `unsat` counts as a proof), but
+	// with a short budget and a single round, so that a broken tree does not cost minutes per
+	// failed obligation.
+	rounds := 2
+	instSat := 0
+	for _, a := range v.Attempts {
+		if strings.HasPrefix(a, "inst/") && strings.HasSuffix(a, ":sat") {
+			instSat++
+		}
+	}
+	if instSat >= 2 {
+		rounds = 1
+		if timeoutMs > 8000 {
+			timeoutMs = 8000
+		}
+	}
 	first := timeoutMs / 4
 	if first > 3000 {
 		first = 3000
@@ -183,7 +201,7 @@ func solveOne(c *Ctx, o *Obligation, dir string, timeoutMs int, seed int) *Verdi
 	if definite(st) {
 		v.Status, v.Solver, v.Output = st, solvers[0].name, out
 	} else {
-		for round := 0; round < 2 && !definite(v.Status); round++ {
+		for round := 0; round < rounds && !definite(v.Status); round++ {
 			ctx, cancel := context.WithCancel(context.Background())
 			type res struct {
 				st, out, name string
@@ -273,6 +291,11 @@ func normalizeValue(v string) string {
 }
 
 // solveAll decides all obligations of a context in parallel.
+// failedSoFar counts failed obligations of the whole run (all functions of the property).
+var failedSoFar int32
+
+const maxFailuresPerRun = 6
+
 func solveAll(c *Ctx, obls []*Obligation, dir string, timeoutMs, workers, seed int) []*Verdict {
 	out := make([]*Verdict, len(obls))
 	var wg sync.WaitGroup
@@ -283,7 +306,16 @@ func solveAll(c *Ctx, obls []*Obligation, dir string, timeoutMs, workers, seed i
 		go func(i int, o *Obligation) {
 			defer wg.Done()
 			defer func() { <-sem }()
+			if atomic.LoadInt32(&failedSoFar) >= maxFailuresPerRun {
+				// enough failed obligations to report: the rest of the run is not attempted (a
+				// broken tree must not cost one solver timeout per obligation)
+				out[i] = &Verdict{Obl: o, Status: "skipped"}
+				return
+			}
 			out[i] = solveOne(c, o, dir, timeoutMs, seed)
+			if !verdictGood(out[i]) {
+				atomic.AddInt32(&failedSoFar, 1)
+			}
 		}(i, o)
 	}
 	wg.Wait()
